@@ -79,7 +79,7 @@ def main():
             "kind_free_text": "rustc_private driver dumping type-checked MIR/ADT/impl/const facts of /repo + Python rule engine (call graph, dominators, provenance, field effects, path-sensitive decision tables); no library code is executed",
         }],
         "checks": checks,
-        "notes": "Static-analysis family only. Defects found by the rules and repaired in /repo are listed in known_findings.json (status fixed) with their fix: commits; tools/repro.sh + repro/defects.rs reproduce each of them at run time for triage only (not a check).",
+        "notes": "Static-analysis family only. Before the rules run, the MIR facts are normalised (riolib/inline.py, riolib/desugar.py): local functions unknown to the reference table known_fns.json are inlined into their callers, iterator chains / Option combinators whose closures call local functions are written out as the loops / matches they abbreviate - so that extracted helpers and iterator-style rewrites are read like the code they replace. The thorough tier replays 51 stored breaking changes (must be reported by the recorded rule) and 87 + 19 behaviour-preserving refactorings (must stay silent). Defects found by the rules and repaired in /repo are listed in known_findings.json (status fixed) with their fix: commits; tools/repro.sh + repro/defects.rs reproduce each of them at run time for triage only (not a check).",
         "not_applicable": na,
     }
     with open(os.path.join(VERIF, "MANIFEST.json"), "w") as fh:
